@@ -270,6 +270,24 @@ impl Prop for C17 {
                             }
                         })
                         .collect();
+                    // lists derived from the spectrum's own shape: the identity, one entry more, one less
+                    let t = if flag == "--project-shape" && rng.chance(1, 3) {
+                        let mut s: Vec<String> = shape.iter().map(|x| x.to_string()).collect();
+                        match rng.below(4) {
+                            0 => {}
+                            1 => s.push(shape[0].to_string()),
+                            2 => {
+                                s.pop();
+                            }
+                            _ => s.extend(["1".to_string(), "1".to_string()]),
+                        }
+                        if s.is_empty() {
+                            s.push("1".into());
+                        }
+                        s
+                    } else {
+                        t
+                    };
                     case.args.push(flag.into());
                     case.args.push(t.join(","));
                 }
